@@ -293,11 +293,32 @@ func c13CheckTree(c *fw.Ctx, label string, root dst.Node, npred int) []dst.Node 
 
 func runC13(c *fw.Ctx) {
 	files := corpus.Sample(c.Rand("files"), c.Pick(300, 0))
+	// the construct snippets and the layout zoo first (rare node shapes)
+	inline := map[string]string{}
+	for k, v := range extraSnippets() {
+		if !strings.HasPrefix(k, "bad:") {
+			inline["snippet:"+k] = v
+		}
+	}
+	for k, v := range layoutZoo() {
+		inline["zoo:"+k] = v
+	}
+	var in []string
+	for k := range inline {
+		in = append(in, k)
+	}
+	sort.Strings(in)
+	files = append(in, files...)
 	for i, p := range files {
 		if !c.Mine(i) {
 			continue
 		}
-		src := readFile(p)
+		var src []byte
+		if v, ok := inline[p]; ok {
+			src = []byte(v)
+		} else {
+			src = readFile(p)
+		}
 		if src == nil {
 			continue
 		}
